@@ -88,7 +88,36 @@ func check(c Case, o *vf.Obs) error {
 func genStructured(front string) func(t *rapid.T) Case {
 	return func(t *rapid.T) Case {
 		c := Case{Front: front}
-		if rapid.Bool().Draw(t, "php") {
+		if gen.Chance(t, 1, 3, "longCard") {
+			// long constraints with a small degree and unit constraints: the watched prefix is a small part
+			// of each constraint, and literals of the tail are falsified level after level
+			n := gen.Uniform(t, 10, 14, "n")
+			for i, m := 0, gen.Uniform(t, 2, 6, "m"); i < m; i++ {
+				ls := gen.DistinctLits(t, n, gen.Uniform(t, 7, n, "len"), "l")
+				k := gen.Uniform(t, 2, 4, "k")
+				if front == "card" {
+					c.Constrs = append(c.Constrs, gen.PC{Kind: "atleast", Lits: ls, K: k})
+				} else {
+					co := make([]int, len(ls))
+					for j := range co {
+						co[j] = rapid.IntRange(1, 3).Draw(t, "co")
+					}
+					c.Constrs = append(c.Constrs, gen.PC{Kind: "gteq", Lits: ls, Coefs: co, K: k + 1})
+				}
+			}
+			for i, m := 0, rapid.IntRange(0, 4).Draw(t, "units"); i < m; i++ {
+				l := gen.Lit(t, n, "u")
+				if front == "card" {
+					c.Constrs = append(c.Constrs, gen.PC{Kind: "atleast", Lits: []int{l}, K: 1})
+				} else {
+					c.Constrs = append(c.Constrs, gen.PC{Kind: "gteq", Lits: []int{l}, Coefs: []int{1}, K: 1})
+				}
+			}
+			for i, m := 0, rapid.IntRange(0, 6).Draw(t, "short"); i < m; i++ {
+				c.Constrs = append(c.Constrs, gen.PC{Kind: "clause", Lits: gen.DistinctLits(t, n, gen.Uniform(t, 2, 3, "clen"), "c")})
+			}
+			c.Constrs = rapid.Permutation(c.Constrs).Draw(t, "order")
+		} else if rapid.Bool().Draw(t, "php") {
 			holes := rapid.IntRange(2, 3).Draw(t, "holes")
 			pigeons := holes + 1
 			if gen.Chance(t, 1, 3, "drop") {
@@ -156,10 +185,10 @@ func init() {
 		vf.Sub[Case]{Name: "card-front", Quick: 20000, Thorough: 250000, Gen: genCase("card"), Check: check, Floor: 0.2,
 			Rule: "ParseCardConstrs via CardConstr/AtLeast1/AtMost1/Exactly1; " + rule},
 		vf.Sub[Case]{Name: "pb-structured", Quick: 4000, Thorough: 50000, Gen: genStructured("pb"), Check: check, Floor: 0.5,
-			Classes: map[string]float64{"conflicts>0": 0.3},
-			Rule: "ParsePBConstrs: pigeonhole with at-most-one rows (variables renamed, constraints shuffled) and dense systems of 6..14 loose-degree constraints over 6..10 variables, tiny learned-clause limit in half of the cases; " + rule},
+			Classes: map[string]float64{"conflicts>0": 0.2},
+			Rule: "ParsePBConstrs: pigeonhole with at-most-one rows (variables renamed, constraints shuffled) dense systems of 6..14 loose-degree constraints over 6..10 variables, and long constraints (7..14 literals, degree 2..5) with unit constraints and short clauses over 10..14 variables, tiny learned-clause limit in half of the cases; " + rule},
 		vf.Sub[Case]{Name: "card-structured", Quick: 4000, Thorough: 50000, Gen: genStructured("card"), Check: check, Floor: 0.5,
-			Classes: map[string]float64{"conflicts>0": 0.3},
+			Classes: map[string]float64{"conflicts>0": 0.2},
 			Rule: "ParseCardConstrs: the same structured families; " + rule},
 	)
 }
